@@ -15,6 +15,28 @@ CHECKS = {
  "C12": dict(engine=B, text="Bounded symbolic check: the jaxpr of the real HMC/NUTS _tune_slow/tune is interpreted over z3 reals with every history entry symbolic (T rows) for an enumerated family of key orders/shapes, diag and dense; z3 shows entry i equals the regularised sample (co)variance of flat coordinate i of ravel_pytree(position) and the step-size rescaling rule.",
              note="blackjax indexes the metric by ravel_pytree order; real arithmetic (float32 cancellation outside the claim); T<=4 rows, dimension<=5; key orders/shapes enumerated.",
              technique="jaxpr interpretation over z3 reals; polynomial identities decided by z3", design="5/C12"),
+
+ "C02": dict(engine=B, text="Bounded symbolic check over an enumerated family of ten model programs built through the public API (regression with transformed scale, per_obs twin, weak intermediate variable, distribution node without variable, unflagged variable, degenerate-MVN prior, DistRegBuilder, user-supplied totals, auto-transform, pop-modify-rebuild): the jaxpr of LieselInterface.update_state with every input value symbolic is interpreted over z3 reals and z3 shows each distribution node equals the TFP density called directly, the three totals equal the flagged sums (or the user's node), the partition identity and per_obs invariance; plus a concrete build-coherence comparison.",
+             note="TFP densities (and MultivariateNormalDegenerate, see C18) are the reference; lgamma/log/exp uninterpreted; penalties, ranks, design matrices concrete; shapes of the family.",
+             technique="jaxpr interpretation over z3 reals; identities decided by z3 (simplifier/nlsat)", design="5/C02"),
+ "C03": dict(engine=B, text="Bounded symbolic check: for each model program one jaxpr containing update_state on a used interface (after an arbitrary earlier call, incl. the same state object), on a fresh interface, direct assignment + full update on a private model copy, extract_position, log_prob and vmap(update_state) is interpreted over z3 reals with positions and states symbolic; z3 shows history independence, equivalence to direct assignment, put/get and the log-prob law; the same laws for the dict/dataclass/named-tuple interfaces; non-mutation and eager/jit agreement are concrete observations around the traced calls.",
+             note="Input states coherent and complete (documented precondition), produced by update_state on a third interface from arbitrary inputs; two consecutive calls; vmap batch 2; eager/jit compared at one point.",
+             technique="jaxpr interpretation over z3 reals; z3 verdict per obligation", design="5/C03"),
+ "C06": dict(engine=B, text="Bounded symbolic check, modular: unit lemmas for iwls_utils.solve/mvn_log_prob/mvn_sample over symbolic lower-triangular factors (n<=2 quick, 3 thorough) and glue obligations over the traced IWLS/RW/MH _standard_transition with the callees re-bound to recording stubs and cholesky as a contract: information evaluated at x and x', solve/sampler/forward/backward density arguments, acceptance = min(1, exp(dlogpi + bwd - fwd)); JAX's autodiff gradient/Hessian matched against analytic ones; RW symmetric proposal in ravel order; MH user correction incl. all float32 values (+-inf) through an fp32 encoding.",
+             note="Composition lemma+glue => MH ratio with the Gaussian IWLS proposal is a written argument (DESIGN.md); cholesky/normal sampler contracts; real arithmetic; Poisson-type target with non-diagonal information, user chol_info_fn stubbed.",
+             technique="jaxpr interpretation with callee stubs (assume/guarantee) over z3 reals and Float32; z3/nlsat verdict per obligation", design="5/C06"),
+ "C09": dict(engine=B, text="Bounded symbolic check: the jaxpr of the real KernelSequence.transition for six kernel sequences over a Liesel regression model (derived mean, report node, transformed scale) and a Dict model is compared cell by cell with the sequential composition of the individual kernels' transitions (draws aligned in order), untouched inputs are syntactically unchanged, and after accept and after reject every derived node incl. the stored log-probability equals a from-scratch evaluation on a private model copy.",
+             note="One iteration from an arbitrary coherent state (induction over iterations); blackjax stubbed; draws paired in order of occurrence; real arithmetic.",
+             technique="jaxpr interpretation over z3 reals, accept/reject case splits; z3/nlsat verdict per cell obligation", design="5/C09"),
+ "C17": dict(engine=B, text="Bounded symbolic check: Model.simulate(seed, skip) followed by update() is traced as a function of the seed and all input values for an enumerated family of hierarchies (direct, via calculation, diamond with shared intermediate, per_obs=False, two-level with matrix shapes) x auto-update on/off x skip sets, the normal sampler stubbed per key term; z3 shows every non-skipped variable = loc(new ancestors) + scale(new ancestors) z, skipped variables unchanged, coherence after update; shapes and key distinctness are read off the encoding.",
+             note="Location-scale (Normal) families; ideal PRNG; real arithmetic; from-scratch reference = Model.update on a second independently built model.",
+             technique="jaxpr interpretation over z3 reals with sampler stubs; z3 verdict per obligation", design="5/C17"),
+ "C18": dict(engine=B, text="Bounded symbolic check: AlgebraicSigmoid inverse/forward round trips and log-det-Jacobians against jax.grad of the real maps; GaussianCopula.log_prob against the closed-form copula density for every dependence in (-1,1) (ndtri uninterpreted), unit-variance base normal, and the constructor's validation asserts sliced from the current source; MultivariateNormalDegenerate constructors (from_penalty, from_penalty_smooth, supplied rank/log-pdet, plain precision) against the Gaussian density on the range space for concrete penalties with symbolic variance/evaluation point, null-space invariance for an arbitrary symmetric 2x2 precision, samples orthogonal to the null space.",
+             note="Uniform marginals and the pseudo-inverse covariance of samples are integral/moment statements outside the claim; eigh as contract (exact table for concrete-penalty x scalar); float32 constant residue tolerated up to 1e-4.",
+             technique="jaxpr interpretation over z3 reals (UF sqrt/log/ndtri, log expansion); z3/nlsat verdict per obligation", design="5/C18"),
+ "C20": dict(engine=B, text="Bounded symbolic check: Stopper.stop_early/stop_now/continue_/which_best_in_recent_history in float32 for every loss history of length N (5 quick/6 thorough), every iteration index, patience 1..3 and arbitrary tolerances against the documented pseudo-code; the statements after optim_flat's while_loop (sliced from the source) with symbolic loss/position histories: best iteration in the final patience window and minimal, returned position = recorded row, consistent model state, history length/NaN padding; the captured loop body traced twice: permutation keys of consecutive iterations compared as datatype terms.",
+             note="Known finding (open): the loop never advances its key, minibatches are not re-drawn. Boundary i in {p-1,p} of the stopper left open (ambiguous documentation); optax arithmetic and minibatch gathers are poison (not interpreted).",
+             technique="jaxpr interpretation over z3 Float32 / reals / datatype terms, ast slicing of the real source; z3 verdict per obligation", design="5/C20"),
 }
 NA = {
  "C19": "numpy fancy indexing / pandas / pickle / xarray code: no jaxpr, and CrossHair realises every value crossing into those extensions (probe: not confirmed in 300 s for a 2x2 code matrix); a hand model of pandas would verify the model, not the code (DESIGN.md section 6).",
